@@ -499,7 +499,7 @@ def h1_task(envr, item):
         if fn == 'apply_formatting_for_match':
             return
         for base in native_receivers(envr):
-            for spec in ('a', 'b', 'ab', 'A', ' ', 'X', '.', 'a*', 'B'):
+            for spec in ('a', 'b', 'ab', 'A', ' ', 'X', '.', 'a*', 'B', 'aa'):
                 for regex in (False, True):
                     for mc in (False, True):
                         for cnt in (-1, 0, 1, 2):
@@ -515,3 +515,223 @@ GROUPS.append(Group('H1', 'format_matching / unformat_matching leave the state o
                     h1_items, h1_task, bounds='re.finditer results of at most 3 matches (bounded); text, pattern, settings, count, flags '
                     'and table unbounded; re.finditer / re.escape uninterpreted functions of all their arguments',
                     assumes=['F3', 'M2', 'SL', 'V5']))
+
+
+# ============================================================================================= X6: replace
+# Hybrid mode: the receiver's table is abstract (any well-formed table: slicing, concatenation, ansi_settings_at and the
+# constructor act through their contracts), the texts have a concrete length and symbolic characters, so the search loop
+# of replace() is unrolled over all texts up to that length.
+CL_REPLACE = [
+    Clause('text-as-str-replace', 'post_replace_text'),
+    Clause('unmatched-keep-settings-replacement-settings-per-match', 'post_replace_view', forall='replace_k_range'),
+    Clause('wf', 'post_result_wf_ok'),
+    Clause('inplace-returns-self-else-new-and-receiver-untouched', 'post_inplace_identity'),
+]
+RAISES_REPLACE = {'TypeError': None}
+
+
+def char_text(c, tag, n, lo=None, hi=None, esc_free=False):
+    cps = []
+    for i in range(n):
+        cp = c.named_int('%s%d' % (tag, i), lo, hi) if lo is not None else c.named_int('%s%d' % (tag, i), 0, 0x10FFFF)
+        if esc_free:
+            c.assume(i_cmp('!=', cp, 27))
+        cps.append(cp)
+    return sym.s_from_chars(cps)
+
+
+def hybrid_string(c, tag, n):
+    """AnsiString with an abstract well-formed table over a text of n symbolic characters"""
+    ab.install(c)
+    tb = ab.fresh_table(c, 'tbl_' + tag)
+    text = char_text(c, 'c' + tag, n)
+    obj = PObj('AnsiString', {'_fmts': tb, '_s': text})
+    if not hasattr(c, 'abs_tables'):
+        c.abs_tables = []
+    c.abs_tables.append(tb)
+    c.assume(ab.WFP(tb.term, sym.Z(n)))
+    return obj
+
+
+def x6_items(tier):
+    L = 4 if tier == 'quick' else 5
+    out = []
+    for n in range(0, L + 1):
+        for lo in (1, 2):
+            if lo > max(n, 1):
+                continue
+            for kind in ('str', 'ansistring', 'ansistr'):
+                for ln in (0, 1, 2):
+                    out.append([n, lo, kind, ln])
+    for n in range(0, 4):
+        for kind in ('str', 'ansistring'):
+            for ln in (0, 1, 2):
+                out.append([n, 0, kind, ln])      # the empty pattern
+    return out
+
+
+def x6_task(envr, item):
+    n, lo, kind, ln = item
+
+    def body(c):
+        s = hybrid_string(c, 'a', n)
+        old = char_text(c, 'o', lo)
+        if kind == 'str':
+            new = char_text(c, 'n', ln, esc_free=True)
+        elif kind == 'ansistring':
+            new = hybrid_string(c, 'b', ln)
+        else:
+            new = PObj('AnsiStr', {'__payload__': sym.s_opaque(c.opaque_text('Payb')), '_s': hybrid_string(c, 'b', ln)})
+        count = c.named_int('count', -1, n + 2)
+        inplace = c.named_bool('inplace')
+        run_contract(envr, c, 'AnsiString.replace', s, [old, new, count, inplace], {}, CL_REPLACE, raises=RAISES_REPLACE,
+                     frame=('new',))
+    return ContractRun(body, CL_REPLACE, raises=RAISES_REPLACE, frame=('new',), use=('ABS',), max_steps=30000)
+
+
+GROUPS.append(Group('X6', 'replace: text as str.replace (all counts, overlapping and empty patterns); characters outside the matches '
+                    'keep their settings, a plain-str replacement takes the settings of the first character of each match, an '
+                    'AnsiString / AnsiStr replacement its own - for every match; replacement value untouched', ['C10', 'C11', 'C09'],
+                    'B', ['AnsiString.replace'], x6_items, x6_task,
+                    bounds='text length L<=4/5, pattern length 0-2, replacement length 0-2, all characters symbolic; count symbolic; '
+                    'tables abstract (unbounded): slicing, +, ansi_settings_at and the constructor by contract',
+                    assumes=['G2', 'A1', 'A2', 'N1', 'F2', 'F3', 'V5']))
+
+
+def x6u_items(tier):
+    return [[kind, cnt] for kind in ('str', 'ansistring', 'ansistr') for cnt in (0, 1)]
+
+
+def x6u_task(envr, item):
+    kind, cnt = item
+
+    def body(c):
+        s, info = abs_string(c, 'a')
+        old = sym.s_opaque(c.opaque_text('Old', 1))
+        new = operand(c, kind, 'b')
+        inplace = c.named_bool('inplace')
+        run_contract(envr, c, 'AnsiString.replace', s, [old, new, cnt, inplace], {}, CL_REPLACE, raises=RAISES_REPLACE,
+                     frame=('new',))
+    return ContractRun(body, CL_REPLACE, raises=RAISES_REPLACE, frame=('new',), use=('ABS',))
+
+
+GROUPS.append(Group('X6u', 'replace with count 0 or 1 on texts, patterns and replacements of any length (the first occurrence is '
+                    'replaced; everything else keeps its settings)', ['C10', 'C11'], 'U', ['AnsiString.replace'], x6u_items,
+                    x6u_task, bounds='count 0 or 1 (one loop iteration); text, pattern, replacement and table unbounded; str.find '
+                    'under its assumed contract', assumes=['G2', 'A1', 'A2', 'N1', 'F2', 'F3', 'V5']))
+
+
+# ============================================================================================= X7: expandtabs
+CL_X7 = [Clause('expandtabs-is-replace-tab-by-tabsize-spaces', 'post_expandtabs_is_replace'),
+         Clause('inplace-returns-self-else-new-and-receiver-untouched', 'post_inplace_identity')]
+
+
+def x7_items(tier):
+    return [['default'], ['sym']]
+
+
+def x7_task(envr, item):
+    def body(c):
+        s, info = abs_string(c, 'a')
+        inplace = c.named_bool('inplace')
+        if item[0] == 'default':
+            run_contract(envr, c, 'AnsiString.expandtabs', s, [], {'inplace': inplace}, CL_X7, fields={'tabsize': 8, 'inplace': inplace})
+        else:
+            ts = c.named_int('tabsize')
+            run_contract(envr, c, 'AnsiString.expandtabs', s, [ts, inplace], {}, CL_X7)
+
+    def pool(envr):
+        from pyvc.argkinds import native_receivers
+        for base in native_receivers(envr):
+            for ts in (-1, 0, 1, 2, 8):
+                for ip in (False, True):
+                    if item[0] == 'default':
+                        yield ('AnsiString.expandtabs', base, [], {'inplace': ip}, {'tabsize': 8, 'inplace': ip})
+                    else:
+                        yield ('AnsiString.expandtabs', base, [ts, ip], {}, {})
+    return ContractRun(body, CL_X7, use=('GENERIC',), pool=pool)
+
+
+GROUPS.append(Group('X7', 'expandtabs(tabsize) is exactly replace("\\t", " " * tabsize) with the same in-place switch (each tab '
+                    'becomes tabsize spaces: the documented deviation from str)', ['C10', 'C11', 'C08'], 'U', ['AnsiString.expandtabs'],
+                    x7_items, x7_task, bounds='none: replace is an uninterpreted state transformer here (its own contract is X6; '
+                    'its in-place switch is V3)', assumes=['X6', 'V3']))
+
+
+# ============================================================================================= X8: splitlines, split(None)
+CL_PIECES = [
+    Clause('piece-texts-as-str', 'post_pieces_texts'),
+    Clause('pieces-keep-settings-at-true-offset', 'post_pieces_view', forall='pieces_k_range'),
+    Clause('pieces-wf-new-objects-receiver-untouched', 'post_part_pieces_ok'),
+]
+
+
+def x8_items(tier):
+    L = 4 if tier == 'quick' else 5
+    out = []
+    for n in range(0, L + 1):
+        out.append(['splitlines', n, 0])
+        out.append(['splitlines', n, 1])
+        for r in (0, 1):
+            for ms in (-1, 0, 1, 2):
+                out.append(['split', n, [r, ms]])
+    return out
+
+
+def x8_task(envr, item):
+    which, n, par = item
+    I = envr.interp
+
+    def body(c):
+        s = hybrid_string(c, 'a', n)
+        t = s.attrs['_s']
+        c.in_spec += 1
+        if which == 'splitlines':
+            keep = bool(par)
+            exp = I.bm.str_method(I, t, 'splitlines', [keep], {})
+            offs = I.call_name('splitlines_offsets', t)
+        else:
+            right, ms = par
+            exp = I.bm.str_method(I, t, 'rsplit' if right else 'split', [None, ms], {})
+            offs = I.call_name('ws_split_offsets', t, exp, bool(right))
+        c.in_spec -= 1
+        fields = {'expected_pieces': exp, 'expected_offsets': offs}
+        if which == 'splitlines':
+            run_contract(envr, c, 'AnsiString.splitlines', s, [keep], {}, CL_PIECES, fields=fields)
+        else:
+            run_contract(envr, c, 'AnsiString._split', s, [None, ms, bool(right)], {}, CL_PIECES, fields=fields)
+    return ContractRun(body, CL_PIECES, use=('ABS',))
+
+
+GROUPS.append(Group('X8', 'splitlines(keepends) and split / rsplit on whitespace: piece texts as str returns them, every piece keeps '
+                    'the settings of the original at its true offset (computed from the line / whitespace structure, not by '
+                    'searching)', ['C10', 'C11'], 'B', ['AnsiString.splitlines', 'AnsiString._split'], x8_items, x8_task,
+                    bounds='text length L<=4/5 with symbolic characters (all of Unicode: every line-break and whitespace class); '
+                    'maxsplit -1..2; tables abstract (unbounded)', assumes=['G2', 'SL']))
+
+
+# ============================================================================================= Y3: assign_str
+CL_ASSIGN = [
+    Clause('text-replaced', 'post_assign_text'),
+    Clause('kept-positions-keep-settings-added-continue-the-last', 'post_assign_view', forall='assign_k_range'),
+    Clause('wf', 'post_self_wf_ok'),
+]
+
+
+def y3_items(tier):
+    shp = shapes.table_shapes(3, 2, 2, 2) if tier == 'quick' else shapes.table_shapes(4, 3, 2, 2)
+    return [[sh] for sh in shp] + [[[]]]
+
+
+def y3_task(envr, item):
+    def body(c):
+        s, info = shapes.build_ansistring(c, item[0], 'a')
+        new = sym.s_opaque(c.opaque_text('New'))
+        run_contract(envr, c, 'AnsiString.assign_str', s, [new], {}, CL_ASSIGN, arg_names=['s'])
+    return ContractRun(body, CL_ASSIGN, names=['s'])
+
+
+GROUPS.append(Group('Y3', 'assign_str: the text is replaced; positions that remain keep their settings, added characters continue '
+                    'the settings of the last character, settings of removed characters are dropped; the table stays well formed',
+                    ['C11', 'C09'], 'B', ['AnsiString.assign_str', 'AnsiString.clip'], y3_items, y3_task,
+                    bounds='change points N<=3/4, objects <=2/3; old and new length, keys and texts symbolic', assumes=['SL']))
